@@ -90,6 +90,11 @@ add("C05", "Hypothesis-drawn property/transition-moment requests and model Hamil
     "orders <= 2, subtract_gs on/off; random operator matrix and random normalised amplitude vectors with the documented 1/sqrt(n_o! n_v!) convention.",
     "Trusted: fock.py, rspt.py, isr.py (orthonormality self test). Expensive blocks are capped in order.")
 
+add("C12", "Hypothesis-drawn (intermediate, index tuple, expansion depth, model) requests; reference model = RSPT wavefunction coefficients / density series / derived residuals; metamorphic consistency for composite intermediates; symmetry and spin-block clauses by exhaustive block enumeration on the model",
+    "Generated-input search over all 25 registered intermediates with generated admissible index names and orders: MP amplitudes (orders 1-3, singles..quadruples) vs. explicit RSPT for every index assignment, density blocks vs. the explicit density series, "
+    "RE residuals vs. the derived residual on off-shell models, t2eri_*/t2sq consistency; declared tensor symmetry and vanishing of all non-allowed spin blocks are checked on the evaluated definitions.",
+    "Trusted: rspt.py, fock.py, spin-structured model of C15. Composite integral-amplitude intermediates have no independent specification offline (consistency + declared symmetry only).")
+
 NOT_YET = "check not built yet in this round (planned, see DESIGN.md)"
 
 def main():
